@@ -147,6 +147,8 @@ fn collect<R: cucumber::Runner<AW>>(r: R, f: gherkin::Feature, cli: R::Cli) -> V
 }
 
 pub fn run(case: &Value) -> Value {
+    // scripted payloads have a kind (String / &'static str / u32) that must survive the trip into the events
+    events::STRICT_KINDS.with(|k| k.set(true));
     ST.with(|s| {
         *s.borrow_mut() = State {
             attempts: case["attempts"].as_array().cloned().unwrap_or_default(),
